@@ -128,6 +128,38 @@ def murex_level(ck, quick):
     ck.cov['murex_level_programs'] = len(cases)
 
 
+def concurrent_traces(ck, quick):
+    """V: goroutines add jobs, end them, collect (as deregisterProcess does) and look up concurrently on a real
+    table; the table's hooks log every operation under its mutex; TLC validates the log against Jobs.tla."""
+    import re
+    mxh = common.build_mxh()
+    n = 150 if quick else 1500
+    rounds = 1 if quick else 3
+    for k in range(rounds):
+        tr = os.path.join(ck.scratch, 'jt%d.ndjson' % k)
+        p = common.run([mxh, 'jobs-drive', '-out', tr, '-seed', str(ck.seed * 13 + k), '-n', str(n)], timeout=900)
+        if p.returncode != 0:
+            raise common.Infra('jobs-drive failed: ' + p.stderr.decode('utf-8', 'replace')[-2000:])
+        r = common.tlc('JobsTrace', 'JobsTrace.cfg', os.path.join(ck.scratch, 'jtv%d' % k), workers=1, timeout=1800,
+                       files={'trace.ndjson': open(tr).read()})
+        ck.add_tlc(r)
+        ck.cov['evaluations'] += n
+        if r.violated:
+            rows = common.read_ndjson(tr)
+            m = re.search(r'"REJECTED_AT", (\d+)', r.out)
+            line = int(m.group(1)) if m else 0
+            start = max(i for i in range(0, max(1, line)) if rows[i]['ev'] == 'reset') if line else 0
+            seg = rows[start:line + 2]
+            ev = rows[line - 1] if 0 < line <= len(rows) else None
+            ck.violation('trace:%s:%s' % (r.violated, ev and ev['ev']),
+                         'a recorded concurrent execution of the job table is not a behaviour of Jobs.tla (%s at event %s)' % (r.violated, ev),
+                         {'tlc': r.violated, 'rejected_event': ev, 'trace': seg[-60:]})
+        else:
+            ck.cov['traces_validated_against_impl'] += n
+            if k == 0:
+                ck.sample({'kind': 'validated concurrent trace prefix', 'events': common.read_ndjson(tr)[:24]})
+
+
 def run(ck, replay=None):
     quick = ck.tier == 'quick'
     ck.cov['rule'] = ('behaviours = paths covering every reachable state (thorough: every transition) of Jobs.tla (up to 5 jobs; '
@@ -145,4 +177,5 @@ def run(ck, replay=None):
     plans = [('MCJobsGenQ.cfg', 'nodes')] if quick else [('MCJobsGen.cfg', 'edges')]
     generic_replay(ck, 'Jobs', 'jobs-replay', plans, ['ret'], step_fn, nontrivial, key)
     ck.cov['exhaustive'] = not quick
+    concurrent_traces(ck, quick)
     murex_level(ck, quick)
